@@ -717,7 +717,10 @@ func (hc *Honeytrap) handle(conn net.Conn) {
 
 	log.Debug("Handling connection for %s => %s %s(%s)", conn.RemoteAddr(), conn.LocalAddr(), sm.Name, sm.Type)
 
-	newConn = TimeoutConn(newConn, time.Second*30)
+	if _, isDatagram := newConn.(*listener.DummyUDPConn); !isDatagram {
+		// datagram pseudo-connections have no deadlines; services recognise them by type
+		newConn = TimeoutConn(newConn, time.Second*30)
+	}
 
 	ctx := context.Background()
 	if err := sm.Service.Handle(ctx, newConn); err != nil {
